@@ -76,7 +76,7 @@ PROPS = {
         design_ref="DESIGN.md section 3 (C09)",
     ),
     "C12": dict(
-        units={"quick": [(BROKER, "acceptor")], "thorough": [(BROKER, "acceptor_t")]},
+        units={"quick": [(BROKER, "acceptor"), (BROKER, "gates@2")], "thorough": [(BROKER, "acceptor_t"), (BROKER, "gates@2")]},
         level="proof",
         timeout={"quick": 600, "thorough": 1500},
         jobs={"quick": 12, "thorough": 8},
@@ -109,6 +109,110 @@ PROPS = {
         stubs=[],
         assumptions=ASSUME_KANI,
         explanation="",
+        level_text="tbd",
+        level_note="tbd",
+    ),
+    "C07": dict(
+        units={"quick": [(CORE, "leaf_total"), (CORE, "shapes_basic"), (CORE, "shapes_keys"), (CORE, "shapes_struct")],
+               "thorough": [(CORE, "buf_ext"), (CORE, "leaf_total"), (CORE, "leaf_total_t"), (CORE, "shapes_basic"), (CORE, "shapes_keys"), (CORE, "shapes_struct")]},
+        level="proof",
+        timeout={"quick": 1500, "thorough": 2400},
+        jobs={"quick": 14, "thorough": 14},
+        par_units=4,
+        mem_gb=14,
+        min_harnesses={"quick": 30, "thorough": 35},
+        functions=[],
+        bounds="",
+        outside="",
+        stubs=[],
+        assumptions=ASSUME_KANI,
+        explanation="",
+        level_text="tbd",
+        level_note="tbd",
+    ),
+    "C13": dict(
+        units={"quick": [(CORE, "convert_epoch"), (CORE, "convert_leaf"), (CORE, "convert_shapes"), (CORE, "convert_keys")],
+               "thorough": [(CORE, "convert_epoch"), (CORE, "convert_leaf"), (CORE, "convert_shapes"), (CORE, "convert_keys_t")]},
+        level="proof",
+        timeout={"quick": 900, "thorough": 2400},
+        jobs={"quick": 14, "thorough": 14},
+        par_units=4,
+        mem_gb=14,
+        min_harnesses={"quick": 20, "thorough": 25},
+        functions=[],
+        bounds="",
+        outside="",
+        stubs=[],
+        assumptions=ASSUME_KANI,
+        explanation="",
+        level_text="tbd",
+        level_note="tbd",
+    ),
+    "C02": dict(
+        units={"quick": [(BROKER, "serial_map"), (BROKER, "conn_state"), (BROKER, "calls@2")], "thorough": [(BROKER, "serial_map"), (BROKER, "conn_state"), (BROKER, "calls@2")]},
+        level="other",
+        timeout={"quick": 1200, "thorough": 2400},
+        jobs={"quick": 14, "thorough": 14},
+        par_units=4,
+        mem_gb=14,
+        min_harnesses={"quick": 2, "thorough": 2},
+        functions=[],
+        bounds="",
+        outside="",
+        stubs=[],
+        assumptions=ASSUME_KANI,
+        explanation="tbd",
+        level_text="tbd",
+        level_note="tbd",
+    ),
+    "C03": dict(
+        units={"quick": [(BROKER, "reg_object@2")], "thorough": [(BROKER, "reg_object@2")]},
+        level="other",
+        timeout={"quick": 1200, "thorough": 2400},
+        jobs={"quick": 14, "thorough": 14},
+        par_units=4,
+        mem_gb=14,
+        min_harnesses={"quick": 2, "thorough": 2},
+        functions=[],
+        bounds="",
+        outside="",
+        stubs=[],
+        assumptions=ASSUME_KANI,
+        explanation="tbd",
+        level_text="tbd",
+        level_note="tbd",
+    ),
+    "C04": dict(
+        units={"quick": [(BROKER, "service"), (BROKER, "conn_state"), (BROKER, "events")], "thorough": [(BROKER, "service"), (BROKER, "conn_state"), (BROKER, "events")]},
+        level="other",
+        timeout={"quick": 1200, "thorough": 2400},
+        jobs={"quick": 14, "thorough": 14},
+        par_units=4,
+        mem_gb=14,
+        min_harnesses={"quick": 5, "thorough": 5},
+        functions=[],
+        bounds="",
+        outside="",
+        stubs=[],
+        assumptions=ASSUME_KANI,
+        explanation="tbd",
+        level_text="tbd",
+        level_note="tbd",
+    ),
+    "C10": dict(
+        units={"quick": [(BROKER, "bus_listener")], "thorough": [(BROKER, "bus_listener")]},
+        level="other",
+        timeout={"quick": 1200, "thorough": 2400},
+        jobs={"quick": 14, "thorough": 14},
+        par_units=4,
+        mem_gb=14,
+        min_harnesses={"quick": 4, "thorough": 4},
+        functions=[],
+        bounds="",
+        outside="",
+        stubs=[],
+        assumptions=ASSUME_KANI,
+        explanation="tbd",
         level_text="tbd",
         level_note="tbd",
     ),
